@@ -510,7 +510,7 @@ impl Family for FCyclic {
 pub struct FOddKeys;
 
 impl FOddKeys {
-    const KEYS: u64 = 10;
+    const KEYS: u64 = 11;
     const READERS: u64 = 20;
     const SIZES: u64 = 2;
 }
@@ -555,7 +555,17 @@ impl Family for FOddKeys {
                 cards.push(sv("cl", C::Closure(vec![], vec![C::Return(b(int(1)))])));
                 rv("cl")
             }
-            _ => C::Float(f64::NEG_INFINITY),
+            9 => C::Float(f64::NEG_INFINITY),
+            _ => {
+                // two table keys stored while they differ (under one hash: the first was empty when
+                // it was stored, then filled; the second is empty) that become equal afterwards;
+                // then the table grows, i.e. every stored entry is moved to a new bucket array
+                cards.push(C::SetProperty(b(int(21)), b(rv("t")), b(rv("kt"))));
+                cards.push(C::Append(b(int(1)), b(rv("kt"))));
+                after.push(sg("_sink", C::PopTable(b(rv("kt")))));
+                after.push(C::Repeat { n: b(int(20)), i: Some("gi".into()), body: b(C::SetProperty(b(rv("gi")), b(rv("t")), b(bin(BinOp::Add, rv("gi"), int(100))))) });
+                rv("kt2")
+            }
         };
         cards.push(sv("oddkey", k));
         cards.push(C::SetProperty(b(int(20)), b(rv("t")), b(rv("oddkey"))));
